@@ -213,9 +213,76 @@ WriteRet(lx, call, ev, connsize) ==
             ELSE IF ~OnceOk(pre, items, tgs) THEN RetR("C02:once", lx)
             ELSE RetR("", lx)
 
+(* ------------------------------------------ upload (C05) ------------------------------------------ *)
+StructName == <<115, 116, 114, 117, 99, 116>>
+ColonIn(n) == \E i \in 1..Len(n) : n[i] = 58
+UserVisible(s) == s.kind = "tag" /\ s.sysflag = 0
+ScopedName(s) == IF s.scope = <<>> THEN s.name ELSE ProgPrefix \o s.scope \o <<46>> \o s.name
+AccessText(lx, code) == LET hits == {i \in 1..Len(lx.access) : lx.access[i][1] = code} IN
+                        IF hits = {} THEN <<>> ELSE lx.access[CHOOSE i \in hits : TRUE][2]
+ExpTag(lx, s) ==
+    [name |-> ScopedName(s), dim |-> Len(Dims(s.dims)), dims |-> s.dims, alias |-> IF BitOf(s.sc[4], 2) = 1 THEN 0 ELSE 1,
+     iid |-> s.iid, dtname |-> TypeName(lx.P, s.t), ttype |-> IF s.t.k = "atomic" THEN "atomic" ELSE "struct",
+     tid |-> IF s.t.k = "struct" THEN s.t.tid ELSE -1]
+GotTag(g) == [name |-> g.name, dim |-> g.dim, dims |-> g.dims, alias |-> g.alias, iid |-> g.iid, dtname |-> g.dtname, ttype |-> g.ttype, tid |-> g.tid]
+ExpectedSyms(lx, allprogs) == SelectSeq(lx.P.symbols, LAMBDA s : UserVisible(s) /\ (s.scope = <<>> \/ allprogs))
+
+\* templates reachable from the visible tags (these are the ones the driver has to upload)
+RECURSIVE Reach(_, _, _)
+Reach(P, todo, seen) ==
+    IF todo = {} THEN seen
+    ELSE LET tid == CHOOSE x \in todo : TRUE
+             tp == Tpl(P, tid)
+             kids == {tp.members[i].t.tid : i \in {j \in 1..Len(tp.members) : tp.members[j].t.k = "struct"}}
+         IN Reach(P, (todo \cup kids) \ (seen \cup {tid}), seen \cup {tid})
+ExpMember(P, mb) == [name |-> mb.name, off |-> mb.off, ttype |-> IF mb.t.k = "atomic" THEN "atomic" ELSE "struct", dtname |-> TypeName(P, mb.t),
+                     bit |-> mb.bit, arr |-> IF mb.bit >= 0 THEN 0 ELSE mb.arr]
+GotMember(g) == [name |-> g.name, off |-> g.off, ttype |-> g.ttype, dtname |-> g.dtname, bit |-> g.bit, arr |-> g.arr]
+DtClause(P, tp, g) ==
+    LET vis == SelectSeq(tp.members, LAMBDA mb : ~IsPrivate(mb.name)) IN
+    IF g.attrs # [i \in 1..Len(vis) |-> vis[i].name] THEN "C05:struct:attributes"
+    ELSE IF {GotMember(g.internal[i]) : i \in 1..Len(g.internal)} # {ExpMember(P, tp.members[i]) : i \in 1..Len(tp.members)} THEN "C05:struct:members"
+    ELSE IF g.string # (IF IsStringTpl(tp) THEN StringCap(tp) ELSE -1) THEN "C05:string"
+    ELSE IF g.size # tp.size \/ g.count # Len(tp.members) \/ g.handle # tp.handle \/ g.defsize # DefSize(tp) THEN "C05:struct:template"
+    ELSE ""
+
+UploadClause(lx, view, allprogs, fw) ==
+    LET P == lx.P
+        exp == ExpectedSyms(lx, allprogs)
+        expNames == {ScopedName(exp[i]) : i \in 1..Len(exp)}
+        gotNames == {view.tags[i].name : i \in 1..Len(view.tags)}
+        expRecs == {ExpTag(lx, exp[i]) : i \in 1..Len(exp)}
+        gotRecs == {GotTag(view.tags[i]) : i \in 1..Len(view.tags)}
+        reach == Reach(P, {exp[i].t.tid : i \in {j \in 1..Len(exp) : exp[j].t.k = "struct"}}, {})
+        expDt == {Tpl(P, tid).name : tid \in reach}
+        gotDt == {view.dts[i].name : i \in 1..Len(view.dts)}
+        progs == SelectSeq(P.symbols, LAMBDA s : s.kind = "program")
+        expProgs == {[name |-> SubSeq(progs[i].name, 9, Len(progs[i].name)),
+                      routines |-> LET rs == SelectSeq(P.symbols, LAMBDA s : s.kind = "routine" /\ s.scope = SubSeq(progs[i].name, 9, Len(progs[i].name)))
+                                   IN IF allprogs THEN [j \in 1..Len(rs) |-> SubSeq(rs[j].name, 9, Len(rs[j].name))] ELSE <<>>] : i \in 1..Len(progs)}
+        gotProgs == {[name |-> view.programs[i].name, routines |-> view.programs[i].routines] : i \in 1..Len(view.programs)}
+        tasks == SelectSeq(P.symbols, LAMBDA s : s.kind = "task")
+        dtc == [i \in 1..Len(view.dts) |-> LET hit == {tid \in reach : Tpl(P, tid).name = view.dts[i].name} IN
+                                            IF hit = {} THEN "" ELSE DtClause(P, Tpl(P, CHOOSE tid \in hit : TRUE), view.dts[i])]
+    IN IF Len(view.tags) # Cardinality(gotNames) THEN "C05:duplicate"
+       ELSE IF expNames \ gotNames # {} THEN "C05:missing"
+       ELSE IF gotNames \ expNames # {} THEN "C05:extra"
+       ELSE IF expRecs # gotRecs THEN "C05:field"
+       ELSE IF fw >= 18 /\ \E i \in 1..Len(view.tags) : \E j \in 1..Len(exp) :
+                   ScopedName(exp[j]) = view.tags[i].name /\ AccessText(lx, exp[j].access) # <<>> /\ view.tags[i].access # AccessText(lx, exp[j].access) THEN "C05:field:external_access"
+       ELSE IF expDt \ gotDt # {} THEN "C05:struct:missing"
+       ELSE IF \E i \in 1..Len(dtc) : dtc[i] # "" THEN dtc[CHOOSE i \in 1..Len(dtc) : dtc[i] # ""]
+       ELSE IF expProgs # gotProgs THEN "C05:programs"
+       ELSE IF {SubSeq(tasks[i].name, 6, Len(tasks[i].name)) : i \in 1..Len(tasks)} # {view.tasks[i] : i \in 1..Len(view.tasks)} THEN "C05:tasks"
+       ELSE IF view.json # 1 THEN "C05:json"
+       ELSE ""
+
 LxRet(lx, call, ev) ==
     IF ~lx.on THEN RetR("", lx)
     ELSE IF call.api = "read" THEN ReadRet(lx, call, ev, ev.size)
     ELSE IF call.api = "write" THEN WriteRet(lx, call, ev, ev.size)
+    ELSE IF call.api \in {"open", "enter", "get_tag_list"} /\ "view" \in DOMAIN ev /\ ev.outcome = "value" /\ ev.faulted = 0
+         THEN RetR(UploadClause(lx, ev.view, IF call.api = "get_tag_list" THEN call.intent.allprogs = 1 ELSE lx.allprogs, lx.fw), lx)
+    ELSE IF call.api = "get_tag_list" /\ ev.outcome # "value" /\ ev.faulted = 0 THEN RetR("C05:upload-failed", lx)
     ELSE RetR("", lx)
 ==============================================================================
